@@ -147,6 +147,30 @@ pub fn near_collinear_arcs() -> Vec<Vec<PathControlPoint>> {
     v
 }
 
+/// Three-point perfect curves far from the origin whose points are almost collinear: a = `origin`, b and c one and
+/// two long steps along a direction, each displaced by a few units.  Here the products of the circumcircle formula
+/// exceed the 24-bit mantissa, so its denominator and the collinearity test round differently.
+pub fn far_almost_collinear_arcs() -> Vec<Vec<PathControlPoint>> {
+    let mut v = Vec::new();
+    for origin in [(1i32, 1i32), (333, -77), (-5000, 7000)] {
+        for dir in [(1i32, 0i32), (1, 1), (3, -1), (5, 7), (-2, 5)] {
+            for step in [1000i32, 4099, 12345] {
+                for e in 0..625i32 {
+                    let (e1, e2) = (e % 25, e / 25);
+                    let b = (origin.0 + step * dir.0 + e1 % 5 - 2, origin.1 + step * dir.1 + e1 / 5 - 2);
+                    let c = (origin.0 + 2 * step * dir.0 + e2 % 5 - 2, origin.1 + 2 * step * dir.1 + e2 / 5 - 2);
+                    if b.0.abs().max(b.1.abs()).max(c.0.abs()).max(c.1.abs()) > 131_072 {
+                        continue;
+                    }
+                    let p = |q: (i32, i32), t| PathControlPoint { pos: Pos::new(q.0 as f32, q.1 as f32), path_type: t };
+                    v.push(vec![p(origin, Some(PathType::PERFECT_CURVE)), p(b, None), p(c, None)]);
+                }
+            }
+        }
+    }
+    v
+}
+
 pub fn points_json(pts: &[PathControlPoint]) -> Value {
     Value::Array(
         pts.iter()
